@@ -434,6 +434,12 @@ class Cursor:
             c = t.cols
             row[c[1]], row[c[2]] = round32(row[c[1]], False), round32(row[c[2]], True)
             row[c[3]], row[c[4]] = round32(row[c[3]], False), round32(row[c[4]], True)
+            # sqlite's rtree rejects rectangles with min > max ("rtree constraint failed")
+            for lo, hi in ((c[1], c[2]), (c[3], c[4])):
+                if row[lo] is not None and row[hi] is not None and truthy(row[lo] > row[hi]):
+                    if ignore:
+                        return
+                    raise IntegrityError(f"rtree constraint failed: {t.name}.({lo}<={hi})")
         if t.pk is not None:
             for r in t.rows:
                 if truthy(r[t.pk] == row[t.pk]):
